@@ -814,3 +814,65 @@ func init() {
 		return iface{}
 	}
 }
+
+// findHarnessFunc looks up a harness-provided function by name in the target packages.
+func (i *interpreter) findHarnessFunc(name string) *ssa.Function {
+	for path := range i.targetPkgs {
+		if p := i.prog.ImportedPackage(path); p != nil {
+			if f := p.Func(name); f != nil {
+				return f
+			}
+		}
+	}
+	for _, p := range i.prog.AllPackages() {
+		if i.targetPkgs[p.Pkg.Path()] {
+			if f := p.Func(name); f != nil {
+				return f
+			}
+		}
+	}
+	return nil
+}
+
+func init() {
+	// Ideal-AEAD model (C20): aes.NewCipher / cipher.NewGCM are replaced by harness-defined
+	// objects (vIdealBlock / vIdealGCM); without them a call into crypto is unsupported.
+	externals["crypto/aes.NewCipher"] = func(fr *frame, a []value) value {
+		f := fr.i.findHarnessFunc("vIdealBlock")
+		if f == nil {
+			panic(abort(abUnsupported, "crypto/aes.NewCipher without an ideal-cipher model in the harness"))
+		}
+		fr.i.stubsUsed["crypto/aes.NewCipher + crypto/cipher.NewGCM = ideal AEAD defined in the harness"] = true
+		return fr.i.call(fr, token.NoPos, f, a, nil)
+	}
+	externals["crypto/cipher.NewGCM"] = func(fr *frame, a []value) value {
+		f := fr.i.findHarnessFunc("vIdealGCM")
+		if f == nil {
+			panic(abort(abUnsupported, "crypto/cipher.NewGCM without an ideal-AEAD model in the harness"))
+		}
+		return fr.i.call(fr, token.NoPos, f, a, nil)
+	}
+	// io.ReadFull(rand.Reader, buf): crypto/rand is not initialised in the engine (nil reader):
+	// the buffer receives fresh symbolic bytes.
+	externals["io.ReadFull"] = func(fr *frame, a []value) value {
+		r := a[0].(iface)
+		if r.t != nil {
+			return notHandled{}
+		}
+		buf := a[1].([]value)
+		fr.i.ps.nfresh++
+		if fr.i.ps.stubs["rand=concrete"] {
+			// distinct concrete bytes per call (keeps encodings of the random value concrete)
+			for k := range buf {
+				fr.i.wr(&buf[k], uint8(fr.i.ps.nfresh*37+k*11+5))
+			}
+			fr.i.stubsUsed["io.ReadFull(crypto/rand.Reader) = distinct concrete bytes per call"] = true
+			return tuple{len(buf), iface{}}
+		}
+		for k := range buf {
+			fr.i.wr(&buf[k], fr.i.newInput(fmt.Sprintf("rand%d[%d]", fr.i.ps.nfresh, k), 8))
+		}
+		fr.i.stubsUsed["io.ReadFull(crypto/rand.Reader) = fresh symbolic bytes"] = true
+		return tuple{len(buf), iface{}}
+	}
+}
